@@ -133,12 +133,12 @@ for _pid, _mods in (("C06", "C06"), ("C07", "C07"), ("C19", "C19")):
 
 CHECKS["C05"] = {
     "modules": ["PGV.Props.C05"], "audits": ["PGV/Audit/C05.lean"],
-    "streams": ["lang", "flat"], "thorough_seeds": 4,
+    "streams": ["lang", "flat", "lang-exh"], "thorough_seeds": 4,
     "assumptions": WALK_ASSUME + [
         "the documented language of each rule is the table in lean/PGV/Spec/Lang.lean (DESIGN.md §6 C05); date separators are judged when they are plain punctuation (sepOK); empty options, several rule items in one text and residual rules (ip, json, re, file, dir) get no spec verdict",
         "Go's regexp implements the usual leftmost semantics for the transcribed patterns; time.Parse + Format for numeric layouts is the standard library's (residual)",
     ],
-    "explanation": "T2_patterns (the regular expressions in the source are the transcribed ones, re-decided every run); C05_int / C05_phone / C05_float / C05_idcard / C05_email (model recogniser = independent recogniser for every byte string), C05_accepts_sound (the eleven residual-free rules: registered function writes a clause iff Spec.Lang.accepts says outside, every rule text of the documented shape, every string), C05_in_canonical_rendering / C05_unique_canonical_rendering / C05_ints_slice (numbers and slices judged through ToStr renderings), C05_timefmt_* (layout = components interleaved with the separators, all separators), C05_date_uses_layout, C05_unique_string, C05_prefix_suffix; stream lang: every rule on members, single-rune edits and random strings through Var/Struct/Map/Url, the verdict judged against Spec.Lang",
+    "explanation": "T2_patterns (the regular expressions in the source are the transcribed ones, re-decided every run); C05_int / C05_phone / C05_float / C05_idcard / C05_email (model recogniser = independent recogniser for every byte string), C05_accepts_sound (the eleven residual-free rules: registered function writes a clause iff Spec.Lang.accepts says outside, every rule text of the documented shape, every string), C05_in_canonical_rendering / C05_unique_canonical_rendering / C05_ints_slice (numbers and slices judged through ToStr renderings), C05_timefmt_* (layout = components interleaved with the separators, all separators), C05_date_uses_layout, C05_unique_string, C05_prefix_suffix; stream lang: every rule on members, single-rune edits and random strings through Var/Struct/Map/Url, the verdict judged against Spec.Lang; lang-exh: EVERY string over {0 1 9 . , - x blank} up to length 4 (quick) / 6 (thorough) under the numeric, list and prefix rules",
 }
 
 CONC_ASSUME = [
